@@ -1,6 +1,7 @@
 """C11 -- PSF, Strehl ratio and MTF are correctly normalised transforms of the
 pupil (structural clauses)."""
 import ast
+import re
 from fractions import Fraction as Fr
 from ..core import Result
 from ..pm import AnalysisError, unparse
@@ -840,4 +841,50 @@ def intensity_used(ctx):
     return res
 
 
-RULES = [intensity_used, c03_trace_entry, c04_marginal, no_stale, psf_norm, dft_sampling, working_fno, def_assign, shapes, geometric]
+def vignetted_pupil(ctx):
+    """'Every MTF curve ... is reported against spatial frequencies whose
+    cut-off is 1 / (wavelength x working F-number)' and 'the PSF equals the
+    squared modulus of the DFT of the sampled complex pupil': the wavefront
+    behind FFTPSF / FFTMTF is sampled at pupil points compressed by the
+    vignetting factors of the field ((1 - vx), (1 - vy), applied by the ray
+    generator), i.e. on an ellipse.  Laying those samples out on the unit disc
+    with one pixel size / one frequency step for both axes is only right when
+    the factors are zero; the units must know the factors."""
+    P = ctx.P
+    res = Result('VIGNETTED-PUPIL', 'PSF pixel size and MTF frequency axes '
+                 'account for the (1 - vx), (1 - vy) compression of the '
+                 'sampled pupil')
+    gen = P.func('RayGenerator.generate_rays')
+    res.saw(gen)
+    compress = 'get_vig_factor' in unparse(gen.node, 100000)
+    users = [P.func(q) for q in ('FFTPSF._generate_pupils',
+                                 'FFTPSF._get_psf_units',
+                                 'FFTMTF._generate_mtf_data',
+                                 'FFTMTF._get_mtf_units',
+                                 'FFTPSF._get_effective_FNO',
+                                 'FFTMTF._get_effective_FNO') if P.has(q)]
+    if len(users) < 4:
+        raise AnalysisError('VIGNETTED-PUPIL: FFT unit functions not found')
+    for f in users:
+        res.saw(f)
+    aware = [f.qual for f in users
+             if re.search(r'get_vig_factor|\bv[xy]\b|vignett',
+                          unparse(f.node, 100000))]
+    if not compress:
+        res.ok('pupil coordinates are not compressed by vignetting factors')
+    elif aware:
+        res.ok(f'vignetting factors enter {aware}')
+    else:
+        res.fail(ctx.finding(
+            'VIGNETTED-PUPIL', users[0], users[0].node,
+            'the OPD of rays traced at pupil points (x (1 - vx), y (1 - vy)) '
+            'is written to the nodes (x, y) of the unit disc and both axes '
+            'get the same pixel size / frequency step: for a field with '
+            'vy = 0.5 the tangential MTF is reported up to 363.6 c/mm where '
+            'the beam cut-off is 90.9 c/mm (values up to 0.66 beyond the '
+            'cut-off, identical to the sagittal curve)',
+            construct='FFT units ignore the vignetted pupil'))
+    return res
+
+
+RULES = [vignetted_pupil, intensity_used, c03_trace_entry, c04_marginal, no_stale, psf_norm, dft_sampling, working_fno, def_assign, shapes, geometric]
